@@ -136,6 +136,31 @@ func commentText(r *RNG, enc string) []byte {
 				c = commentChars[r.Intn(len(commentChars))]
 			}
 		}
+		if enc != "ascii" && r.Chance(1, 4) { // arbitrary text: any double-byte character of the code set
+			k := r.Intn(len(sjisAllU))
+			if enc == "sjis" {
+				b = append(b, sjisAllS[2*k], sjisAllS[2*k+1])
+			} else {
+				b = append(b, string(sjisAllU[k])...)
+			}
+			continue
+		}
+		if enc == "utf8" && r.Chance(1, 6) { // arbitrary UTF-8 text: any scalar value except line ends
+			specials := []rune{0xFFFD, 0xFEFF, 0x2028, 0x2029, 0x85, 0xA0, 0x80, 0x10FFFF, 0xFFFE, 0x7F, 0x1B, 0x0C, 0x0B, 0x1F600, 0xE000, 0x3000}
+			var ru rune
+			if r.Chance(1, 2) {
+				ru = specials[r.Intn(len(specials))]
+			} else {
+				for {
+					ru = rune(r.Intn(0x110000))
+					if ru >= 0x20 && !(ru >= 0xD800 && ru <= 0xDFFF) {
+						break
+					}
+				}
+			}
+			b = append(b, string(ru)...)
+			continue
+		}
 		if enc == "sjis" && c.S == nil {
 			continue
 		}
